@@ -3,6 +3,44 @@ import json, os
 V = os.path.dirname(os.path.dirname(os.path.abspath(__file__)))
 props = [json.loads(l)["id"] for l in open(os.path.join(V, "properties.jsonl"))]
 CHECKS = {
+ "C07": dict(
+   text="Coq theorems (Props/C07.v, 10; proofs Agg/CodebaseProofs*.v ~2000 lines) over the model of Codebase.add_file / "
+        "add_folder / aggregate with leaves re-translated from source: for every list of file entries with distinct well-formed "
+        "relative paths, in any insertion order, building succeeds; files are kept once each in order; per-language totals are "
+        "the counts and sums over that language's files; grand totals are the sums; each folder's profile is the sum over all "
+        "files beneath it at any depth, the root's is the whole codebase's; the tree's keys are the root plus all ancestors, "
+        "each file occurs once under its parent folder, every folder is reachable.  Both hypotheses are shown necessary by "
+        "counterexamples that reproduce on the Python class.  Tie: all insertion orders of small sets + random sets, every case "
+        "through the Coq model.",
+   note="Trusted: Coq kernel; translator for make_profile/merge_profiles/LanguageTotals.add; hand model Agg/Codebase.v (tie H, "
+        "538 full-structure comparisons per quick run).",
+   technique="Rocq proof (insertion invariant, fuelled recursion totality, aggregation frame property) + vm_compute correspondence",
+   ref="DESIGN.md section 5, C07"),
+ "C08": dict(
+   text="Coq theorems (Props/C08.v; proofs Report/JsonProofs.v, WriterProofs.v): for EVERY document the writer's layout "
+        "produces (pretty or compact), the token-level parser accepts it and returns the document's value, so both layouts are "
+        "valid and equal as values; white space tokens are blanks only; for every report whose codebase was built from "
+        "distinct paths, reading the written document yields the same version, identifier, repository and the same codebase, "
+        "and re-writing reproduces the token stream up to the timestamp; get_report_version returns the stored version. "
+        "Strings are abstract tokens rendered by the json.dumps oracle; the model's document is compared byte for byte with "
+        "ReportWriter.to_json on every generated report (quotes, backslashes, control and non-ASCII characters in every field).",
+   note="Trusted: Coq kernel; json.dumps/json.loads string codec (oracle, exercised by the harness round trip); hand models "
+        "Report/Json.v, Writer.v (tie H).",
+   technique="Rocq proof (printer/parser inversion for a layout-annotated document type, reader-writer round trip) + byte-exact correspondence",
+   ref="DESIGN.md section 5, C08"),
+ "C18": dict(
+   text="Coq theorems (Props/C18.v; proofs Report/RenderProofs*.v) about the cell formatters re-translated from "
+        "LanguageTotalsDelta/ScanTotalsDelta/ScanTotals on every run: decimal formatting is correct (digits parse back), every "
+        "cell's leading integer is the stored figure, a cell is annotated exactly when current and previous differ and the "
+        "annotation parses to current - previous; rows are the languages by lines of code descending (stable), each row built "
+        "from the previous report's totals of the same language; totals row iff more than one language with the sums and "
+        "their deltas; text and Markdown overviews are equal; findings = the > 30 units, longest first, cut at ten with the "
+        "exact omitted count (shared with C02).  Tie: random report pairs, cells read back from the Table object and the "
+        "Markdown lines.",
+   note="Trusted: Coq kernel; translator; Render.v glue (tie H); rich layout not modelled; LC_ALL=C for the :n format.",
+   technique="Rocq proof on source-translated formatters (decimal printing, sort facts) + vm_compute correspondence of cells",
+   ref="DESIGN.md section 5, C18"),
+
  "C05": dict(
    text="Coq theorems (Props/C05.v; proofs Scope/WfProofs*.v, Gsm/DistinctStartProofs.v, 1700 lines): for every token list with "
         "strictly increasing positions (what the lexing model guarantees, C16) every measurement starts at a code token, ends "
